@@ -10,6 +10,8 @@ From FV.C11 Require Import Model Entry Proofs ProofsVol ProofsArea ProofsRef Pro
 From FV.C11 Require Import BrickModel ProofsBrick ProofsBrickGeom ProofsPolygon.
 From FV.C11.gen Require Import Kernels Brick.
 Open Scope R_scope.
+(* no sentence of this file may hold the shared Coq build lock for long *)
+Set Default Timeout 240.
 
 Local Notation A M t := (aff ROps M t).
 
